@@ -245,7 +245,13 @@ func init() {
 							// shrinking only: Frames[:len(Frames)-k] ; anything whose high bound is not `len(Frames) - const` may extend
 							shrinks := false
 							if x.High != nil && x.Low == nil {
-								if be, ok := ast.Unparen(x.High).(*ast.BinaryExpr); ok && be.Op == token.SUB {
+								// the bound may be named first (`last := len(s.Frames) - 1`): a local with one
+								// definition stands for it, provided this is the function's only store to Frames
+								high := ast.Unparen(x.High)
+								if nFramesStores(info, u.Decl.Body, frames) == 1 {
+									high = resolveLocal(info, u.Decl.Body, high)
+								}
+								if be, ok := high.(*ast.BinaryExpr); ok && be.Op == token.SUB {
 									if ce, ok := ast.Unparen(be.X).(*ast.CallExpr); ok {
 										if id, ok := ast.Unparen(ce.Fun).(*ast.Ident); ok && id.Name == "len" && len(ce.Args) == 1 && FieldOfSelector(info, ce.Args[0]) == frames {
 											if k, ok := intConst(info, be.Y); ok && k > 0 {
@@ -269,6 +275,22 @@ func init() {
 			}
 			return obs
 		}})
+}
+
+// nFramesStores counts the assignments to field fld in body.
+func nFramesStores(info *types.Info, body ast.Node, fld *types.Var) int {
+	n := 0
+	ast.Inspect(body, func(m ast.Node) bool {
+		if as, ok := m.(*ast.AssignStmt); ok {
+			for _, l := range as.Lhs {
+				if FieldOfSelector(info, l) == fld {
+					n++
+				}
+			}
+		}
+		return true
+	})
+	return n
 }
 
 func init() {
@@ -850,7 +872,11 @@ func init() {
 						continue
 					}
 					if se, ok := v.(*ast.SelectorExpr); ok && (se.Sel.Name == "File" || se.Sel.Name == "Path") {
-						if o := identObj(info, se.X); o != nil && srcOK[o] {
+						if o := identObj(info, se.X); o != nil && (srcOK[o] || natLoc[o]) {
+							continue // a local holding the frame's Source, or the synthetic native location
+						}
+						// top.Source.File / top.Source.Path written out
+						if inner, ok := ast.Unparen(se.X).(*ast.SelectorExpr); ok && inner.Sel.Name == "Source" && topObj != nil && identObj(info, inner.X) == topObj {
 							continue
 						}
 					}
